@@ -273,10 +273,15 @@ theorem step_cpr {o : Op} {t t' : Text}
 
 /-! ### licence expressions and contributors: the step -/
 
+/-- the licence values a text declares: the values of its licence tags, empty values aside (a tag without a value declares
+    nothing) -/
+def licValues (t : Text) : List Text :=
+  (findSpdxTagWith Generated.endRe Generated.licenseTag t).filter (fun v => !v.isEmpty)
+
 theorem mem_extractRaw_lic {t x : Text} (h : findSub Generated.ignoreStart t = none) :
-    x ∈ (extractRaw t).lic ↔ x ∈ findSpdxTagWith Generated.endRe Generated.licenseTag t := by
-  unfold extractRaw extractRawWith
-  simp only [mem_dedup, filterIgnore_id h]
+    x ∈ (extractRaw t).lic ↔ x ∈ licValues t := by
+  unfold extractRaw extractRawWith licValues
+  simp only [List.mem_filter, mem_dedup, filterIgnore_id h]
 
 theorem mem_extractRaw_con {t x : Text} (h : findSub Generated.ignoreStart t = none) :
     x ∈ (extractRaw t).con ↔ x ∈ findSpdxTagWith Generated.endRe Generated.contributorTag t := by
@@ -287,8 +292,8 @@ theorem mem_extractRaw_con {t x : Text} (h : findSub Generated.ignoreStart t = n
     `"`, `'` or `]`. -/
 theorem endRe_guarded : EndGuarded Generated.endRe := by decide
 
-theorem lic_piecewise : Piecewise (findSpdxTagWith Generated.endRe Generated.licenseTag) (fun u => openEnd u = false) :=
-  tags_piecewise endRe_guarded _ (by decide) ⟨'S', rfl, by decide⟩
+theorem lic_piecewise : Piecewise licValues (fun u => openEnd u = false) :=
+  (tags_piecewise endRe_guarded _ (by decide) ⟨'S', rfl, by decide⟩).filter _
 
 theorem con_piecewise : Piecewise (findSpdxTagWith Generated.endRe Generated.contributorTag) (fun u => openEnd u = false) :=
   tags_piecewise endRe_guarded _ (by decide) ⟨'S', rfl, by decide⟩
